@@ -44,7 +44,7 @@ type c14Toml struct {
 }
 
 var c14TomlBare = []string{"a", "b", "c", "name", "key", "x1", "my-key", "my_key", "A", "server", "port", "0", "1", "10", "007", "true", "inf", "e1"}
-var c14TomlQuoted = []string{"with space", "dotted.key", "ʎǝʞ", "日本", "😀", "q\"uote", "back\\slash", "tab\there", "", "#hash", "a=b", "[x]", "it's", "new\nline", " lead", "trail ", "  "}
+var c14TomlQuoted = []string{"with space", "dotted.key", "ʎǝʞ", "日本", "😀", "q\"uote", "back\\slash", "tab\there", "", "#hash", "a=b", "[x]", "it's", "new\nline", " lead", "trail ", "  ", "a*", "*", "?", "k?", "n*me", "ser*"}
 
 func (g *c14Toml) key(used map[string]bool) string {
 	for {
